@@ -33,9 +33,10 @@ type Obligation struct {
 }
 
 type item struct {
-	fact Term
-	ob   *Obligation
-	cmt  string
+	fact  Term
+	ob    *Obligation
+	cmt   string
+	probe bool // vacuity probe: the facts so far must be satisfiable
 }
 
 type Heap struct {
@@ -61,6 +62,7 @@ type LV struct {
 	ref   Term // for struct-at-ref locations
 	nnKey string // key for the non-nil discipline ("T.f" or slice type)
 	fresh bool
+	elemOf string // element of a slice loaded from field "T.f"
 }
 
 type lvStep struct {
@@ -120,6 +122,9 @@ type VC struct {
 	opts        *Options
 	factSeen    map[string]bool
 	ghostEnv    map[string]Term
+	Vacuous     bool // the entry assumptions (requires, axioms) are contradictory
+	inTypeInv   bool
+	fromField   map[ssa.Value]string
 }
 
 type hdrInfo struct {
@@ -503,6 +508,23 @@ func (vc *VC) typeFacts(term Term, t types.Type) Term {
 			Imp(Eq(sx("s_arr", term), "0"), Eq(term, "nil_slice")), Le(sx("s_arr", term), vc.cur.alloc), Ge(sx("s_arr", term), "0"))
 	case *types.Pointer:
 		fs = append(fs, Le(term, vc.cur.alloc))
+		if !vc.inTypeInv {
+			for _, ti := range vc.e.cs.TypeInvs {
+				if !ti.Assumed || vc.e.typeName(u.Elem()) != ti.Type {
+					continue
+				}
+				vc.inTypeInv = true
+				ce := &cenv{vc: vc, vars: map[string]cval{"self": {t: term, typ: t}}, heap: vc.cur}
+				r := ce.eval(ti.Expr)
+				vc.inTypeInv = false
+				if ce.err == nil {
+					fs = append(fs, Imp(Ne(term, "0"), r.t))
+					vc.usedTrusted["assume_inv "+ti.Text] = true
+				} else {
+					vc.unsupp("assume_inv %s: %v", ti.Text, ce.err)
+				}
+			}
+		}
 	case *types.Map:
 		fs = append(fs, Le(term, vc.cur.alloc), Ge(term, "0"))
 	case *types.Interface:
@@ -708,6 +730,19 @@ func (vc *VC) loopWrites(h int) *ModSet {
 		for _, ins := range b.Instrs {
 			switch x := ins.(type) {
 			case *ssa.Store:
+				if al, ok := rootOf(x.Addr).(*ssa.Alloc); ok && isStruct(deref(al.Type())) {
+					// a store into a locally allocated struct: only that object changes
+					_, isFA := x.Addr.(*ssa.FieldAddr)
+					if isFA || x.Addr == ssa.Value(al) {
+						vc.e.storeArrays(x.Addr, x.Val.Type(), func(n string) {
+							if m.Local == nil {
+								m.Local = map[string][]ssa.Value{}
+							}
+							m.Local[n] = append(m.Local[n], al)
+						})
+						continue
+					}
+				}
 				vc.e.storeArrays(x.Addr, x.Val.Type(), func(n string) { m.add(n, modOld) })
 			case *ssa.MapUpdate:
 				d, v, _, _ := vc.e.mapArrs(x.Map.Type().Underlying().(*types.Map))
